@@ -24,3 +24,14 @@ Definition obs_trace (m : mode) (tr : list (nat * lbl)) : T :=
       | None => Tl [Tn (-3)]
       end
   end.
+
+(* the same verdict when the harness could not observe the real queue content: that component is left empty *)
+Definition obs_trace_np (m : mode) (tr : list (nat * lbl)) : T :=
+  match first_reject (init m) 0 tr with
+  | Some i => Tl [Tnat i]
+  | None =>
+      match run (init m) tr with
+      | Some s => Tl [Tn (-1); Tlist enc_ev (foreign (disp s)); Tl []; Tnat (ngen s); Tbool (blocked s)]
+      | None => Tl [Tn (-3)]
+      end
+  end.
